@@ -354,7 +354,7 @@ Definition w_ip (f : N) (ip : string) : bool :=
 
 Definition w_entry (path backend : string) (hs : list header_cond) : path_entry :=
   {| pe_path := path; pe_prefix := ""; pe_regexp := ""; pe_methods := []; pe_rewrite := "";
-     pe_backend := backend; pe_headers := hs; pe_match_all := false; pe_filter := None |}.
+     pe_backend := backend; pe_headers := hs; pe_match_all := false; pe_filter := None; pe_body := 0%Z |}.
 
 Definition w_sv (with_header_entry : bool) : server :=
   {| sv_filter := Some 0%N;
@@ -365,10 +365,10 @@ Definition w_sv (with_header_entry : bool) : server :=
             ru_paths := (if with_header_entry
                          then [w_entry "/a" "A" [ {| hc_key := "X"; hc_values := ["v1"]; hc_regexp := "" |} ]]
                          else []) ++ [w_entry "/a" "B" []] |} ];
-     sv_backends := ["A"; "B"; "C"] |}.
+     sv_backends := ["A"; "B"; "C"]; sv_body := 0%Z |}.
 
 Definition w_rq (host method path : string) (hs : list (string * string)) (ip : string) : request :=
-  {| rq_host := host; rq_method := method; rq_path := path; rq_rawpath := ""; rq_headers := hs; rq_ip := ip |}.
+  {| rq_host := host; rq_method := method; rq_path := path; rq_rawpath := ""; rq_headers := hs; rq_ip := ip; rq_body := 0%Z |}.
 
 Definition flag1 : quirks := {| q_cache_key_concat := true; q_cache_headerless_after_header := false;
   q_cache_status_before_ipfilter := false; q_cache_rule_filter_skipped := false |}.
